@@ -18,6 +18,15 @@ FAST_KEYS = ["129029/gnssPositionData", "126996/productInformation", "130816/0x1
 MANUFACTURERS = [(1855, "Furuno"), (1857, "Simrad"), (135, "Airmar"), (137, "Maretron"), (229, "Garmin"), (2046, None)]
 
 
+# multi-definition PGNs whose sibling definitions are told apart late in the payload (byte 5 or later)
+TWIN_PGNS = [130850, 126720, 130842, 65285]
+
+
+def twin_ids():
+    database = canboat.db()
+    return sorted({d.id for p in TWIN_PGNS for d in database.by_pgn[p] if d.supported})
+
+
 def iso_name(unique: int, mfg: int, inst_lo=0, inst_hi=0, func=130, dev_class=25, sys_inst=0, industry=4, aac=1) -> int:
     return (unique & 0x1FFFFF) | (mfg & 0x7FF) << 21 | (inst_lo & 7) << 32 | (inst_hi & 0x1F) << 35 | (func & 0xFF) << 40 | (dev_class & 0x7F) << 49 \
         | (sys_inst & 0xF) << 56 | (industry & 7) << 60 | (aac & 1) << 63
@@ -57,14 +66,14 @@ def names(draw):
 
 
 @st.composite
-def history(draw, min_msgs=4, max_msgs=14, sources=(1, 2, 3, 9), claims=True, single_keys=SINGLE_KEYS, fast_keys=FAST_KEYS, junk=False, name_pool=None):
+def history(draw, min_msgs=4, max_msgs=14, sources=(1, 2, 3, 9), claims=True, single_keys=SINGLE_KEYS, fast_keys=FAST_KEYS, junk=False, name_pool=None, twins=False):
     """List of frame items with fast-packet frames of different messages interleaved."""
     database = canboat.db()
     n = draw(st.integers(min_msgs, max_msgs))
     msgs = []
     seqs = {}
     for mi in range(n):
-        kinds = ["single", "single", "fast"] + (["claim"] if claims else []) + (["junk"] if junk else [])
+        kinds = ["single", "single", "fast"] + (["claim"] if claims else []) + (["junk"] if junk else []) + (["twin"] if twins else [])
         kind = draw(st.sampled_from(kinds))
         src = draw(st.sampled_from(sources))
         if kind == "claim":
@@ -74,7 +83,35 @@ def history(draw, min_msgs=4, max_msgs=14, sources=(1, 2, 3, 9), claims=True, si
             d = database.by_key[draw(st.sampled_from(single_keys))]
             p, nb, _ = draw(gen.payloads(d, mode="accepted", extra_bytes=False))
             dest = 255 if ((d.pgn >> 8) & 0xFF) >= 240 else draw(st.sampled_from([255, 7] + list(sources)))
-            msgs.append([{"kind": "single", "pgn": d.pgn, "src": src, "dest": dest, "data": p.to_bytes(nb, "little")[:8], "msg": mi, "def": d.key}])
+            data = p.to_bytes(nb, "little")[:8]
+            if d.pgn == 59904:
+                dest = draw(st.sampled_from([255, 255, 255, dest]))       # requests are mostly global
+            if d.pgn == 59904 and draw(st.integers(0, 3)) > 0:
+                # the requests that really occur on a bus (the library itself sends the first three to seed its network map)
+                data = draw(st.sampled_from([60928, 60928, 126996, 126998, 59904, 127250])).to_bytes(3, "little")
+            msgs.append([{"kind": "single", "pgn": d.pgn, "src": src, "dest": dest, "data": data, "msg": mi, "def": d.key}])
+        elif kind == "twin":
+            # two sibling definitions of one PGN whose payloads agree on every byte except the second one's match fields
+            pgn = draw(st.sampled_from(TWIN_PGNS))
+            ds = [d for d in database.by_pgn[pgn] if d.supported and d.fixed_layout and d.matches]
+            d1 = draw(st.sampled_from(ds))
+            d2 = draw(st.sampled_from(ds))
+            p1, nb, _ = draw(gen.payloads(d1, mode="accepted", extra_bytes=False))
+            p2 = p1
+            for off, bits, mv, _ in d2.matches:
+                p2 = (p2 & ~(((1 << bits) - 1) << off)) | (mv << off)
+            nb2 = max(nb, d2.nbytes())
+            for dd, pp, nn in ((d1, p1, nb), (d2, p2, nb2)):
+                payload = pp.to_bytes(nn, "little")[:223]
+                dest = 255 if ((pgn >> 8) & 0xFF) >= 240 else 7
+                if dd.fast:
+                    k = (pgn, src, dest)
+                    seq = draw(st.integers(0, 7).filter(lambda x, k=k: x != seqs.get(k)))
+                    seqs[k] = seq
+                    msgs.append([{"kind": "fastframe", "pgn": pgn, "src": src, "dest": dest, "data": fr, "msg": len(msgs) + 1000 * mi, "def": dd.key, "frame": i}
+                                 for i, fr in enumerate(wire.segment(payload, seq))])
+                else:
+                    msgs.append([{"kind": "single", "pgn": pgn, "src": src, "dest": dest, "data": payload[:8], "msg": len(msgs) + 1000 * mi, "def": dd.key}])
         elif kind == "fast":
             d = database.by_key[draw(st.sampled_from(fast_keys))]
             p, nb, _ = draw(gen.payloads(d, mode="accepted", extra_bytes=False))
@@ -86,7 +123,7 @@ def history(draw, min_msgs=4, max_msgs=14, sources=(1, 2, 3, 9), claims=True, si
             msgs.append([{"kind": "fastframe", "pgn": d.pgn, "src": src, "dest": dest, "data": fr, "msg": mi, "def": d.key, "frame": i}
                          for i, fr in enumerate(wire.segment(payload, seq))])
         else:
-            jk = draw(st.sampled_from(["unknown_pgn", "truncated", "out_of_range", "no_definition"]))
+            jk = draw(st.sampled_from(["unknown_pgn", "truncated", "out_of_range", "no_definition", "no_definition_fast"]))
             if jk == "unknown_pgn":
                 msgs.append([{"kind": "raw", "pgn": draw(st.sampled_from([65000, 131000, 100000])), "src": src, "dest": 255,
                               "data": draw(st.binary(min_size=8, max_size=8)), "msg": mi, "junk": jk}])
@@ -95,6 +132,16 @@ def history(draw, min_msgs=4, max_msgs=14, sources=(1, 2, 3, 9), claims=True, si
                 pgn = draw(st.sampled_from([65285, 65286, 65287, 65293, 130817, 130821]))
                 hdr = (229 | 3 << 11 | 4 << 13).to_bytes(2, "little")          # Garmin, marine industry
                 msgs.append([{"kind": "raw", "pgn": pgn, "src": src, "dest": 255, "data": hdr + draw(st.binary(min_size=6, max_size=6)), "msg": mi, "junk": jk}])
+            elif jk == "no_definition_fast":
+                # a complete fast-packet message of a proprietary PGN without fallback, from a manufacturer no definition names
+                pgn = draw(st.sampled_from([130817, 130818, 130820, 130842, 130843, 130850]))
+                hdr = (229 | 3 << 11 | 4 << 13).to_bytes(2, "little")
+                payload = hdr + draw(st.binary(min_size=4, max_size=14))
+                k = (pgn, src, 255)
+                seq = draw(st.integers(0, 7).filter(lambda x, k=k: x != seqs.get(k)))
+                seqs[k] = seq
+                msgs.append([{"kind": "fastframe", "pgn": pgn, "src": src, "dest": 255, "data": fr, "msg": mi, "junk": jk, "frame": i}
+                             for i, fr in enumerate(wire.segment(payload, seq))])
             elif jk == "truncated":
                 d = database.by_key[draw(st.sampled_from(single_keys + fast_keys))]
                 msgs.append([{"kind": "raw", "pgn": d.pgn, "src": src, "dest": 255, "data": draw(st.binary(min_size=0, max_size=2)), "msg": mi, "junk": jk}])
